@@ -51,7 +51,7 @@ PATCH = {
     'wedge': {'ElementWedge1': 1},
 }
 VECTOR = {'tri': {'ElementVector(TriP1)': 1, 'ElementVector(TriP2)': 2}, 'quad': {'ElementVector(Quad2)': 2},
-          'tet': {'ElementVector(TetP2)': 2}, 'hex': {'ElementVector(Hex1)': 1}}
+          'tet': {'ElementVector(TetP2)': 2, 'ElementVector(TetCCR)': 2}, 'hex': {'ElementVector(Hex1)': 1, 'ElementVector(HexS2)': 2}}
 
 
 def axis_mesh(kind):
@@ -370,6 +370,16 @@ def elasticity(name, lab, ename, tier, seed, out):
             if not np.isfinite(err) or err > 1e-8 * (1 + np.abs(ue).max()):
                 bad('solution', f"discrete displacement differs from the polynomial by {err:.3e}")
                 continue
+            # the solution split into its components (the documented way to look at one displacement component)
+            try:
+                for ci, (xc_, bc_) in enumerate(basis.split(x)):
+                    uc_ = np.asarray(bc_.interpolate(xc_))
+                    if np.abs(uc_ - ue[ci]).max() > 1e-8 * (1 + np.abs(ue).max()):
+                        bad('split-solution', f"component {ci} of the split solution differs from the polynomial by "
+                            f"{np.abs(uc_ - ue[ci]).max():.3e} although the whole vector is exact")
+                        break
+            except Exception as e:
+                bad('split-exception', repr(e))
             if len(D) < basis.N:
                 out.nt((name, lab, ename, c, mono, tuple(Dsel)))
             out.outcome((ename, 'elasticity', sum(mono)))
